@@ -325,10 +325,21 @@ def val(rng):
     return rng.choice((0.0, 1.0, -1.0, 0.25, 2.5, -3.75, 7.0, 1e6, -0.5, 12.125))
 
 
+def dval(rng):
+    """value for a dvector cell: mostly ordinary numbers, now and then an infinity or a NaN (a dvector stores any
+    double as it is; only setMatrixValue re-codes non-finite numbers)"""
+    c = rng.random()
+    if c < 0.05:
+        return rng.choice((float("inf"), float("-inf")))
+    if c < 0.07:
+        return float("nan")
+    return val(rng)
+
+
 def gen_history(rng, length, kinds):
     sh = Shadow()
     ops = []
-    words = ["a", "bb", "xyz", "hello", "k9", "Q"]
+    words = ["a", "bb", "xyz", "hello", "k9", "Q", "50%%", "a%%b", "tab\\t"]
 
     def live(P):
         return [k for k in range(NS) if P[k] is not None]
@@ -376,6 +387,8 @@ def gen_history(rng, length, kinds):
                     t = ["%s_fill" % kind, k, x]
                 elif o == "sort" and kind != "iv":
                     t = ["%s_sort" % kind, k]
+                    if kind == "dv" and any(x != x for x in P[k]):
+                        t = None  # the order of a NaN under the library's comparison function is not defined
                 elif o == "del" and rng.random() < 0.3:
                     t = ["%s_del" % kind, k]
         elif kind == "m":
@@ -404,7 +417,7 @@ def gen_history(rng, length, kinds):
                             t = ["dv_resize", j, want]
                         ops.append(t); sh.apply([str(x) for x in t])
                         for q in range(want):
-                            t2 = ["dv_set", j, q, val(rng)]
+                            t2 = ["dv_set", j, q, dval(rng)]
                             ops.append(t2); sh.apply([str(x) for x in t2])
                         t = ["m_" + o, k, j]
                 elif o in ("appuirow", "appuicol"):
@@ -691,7 +704,10 @@ def run(ck, rng, tier):
         # correspondence with the Coq model: histories made only of modelled operations
         terms = [coq_op([fmt_op([x]) for x in t]) for t in ops]
         res = parse_run(out)
-        if all(x is not None for x in terms) and len(res) == len(ops) + 1 and len(ops) <= (60 if thorough else 45) and len(checks.items) < (60 if not thorough else 400):
+        has_nan = any(isinstance(x, float) and x != x for t in ops if t[0].startswith("dv_") for x in t)
+        if has_nan:
+            ck.count("histories with NaN in a dvector (judged by the reference semantics only)")
+        if not has_nan and all(x is not None for x in terms) and len(res) == len(ops) + 1 and len(ops) <= (60 if thorough else 45) and len(checks.items) < (60 if not thorough else 400):
             checks.add(hno, "history", "trace_ok (ops := F64Ops) [:: %s] %s" % ("; ".join(terms), coq_trace(res[:len(ops)])))
     if checks.items:
         failing, logs, cerr = vf.run_cases_v("c14", IMPORTS, DEFS, checks.items, shard=8, timeout=1200)
